@@ -170,6 +170,53 @@ seed never draws again: the trajectory's script is set up with exactly the seed 
 theorem stored_script_reproduces (given : Option Int) (drawn drawn' : Int) :
     seedSetter (some (seedSetter given drawn)) drawn' = seedSetter given drawn := rfl
 
+/-! ## 4b. the stored script is the script as it was SET UP: the caller's later edits of its own object do not reach it -/
+
+/-- the caller's and the wrapper's script OBJECTS: a store of seeds by object identity.  `setup` executes
+`self._script = script.copy()` (a new object), the caller's later `script.rng_seed = v` writes ITS object. -/
+structure ScriptHeap where
+  seeds : List Int
+
+def ScriptHeap.get (h : ScriptHeap) (a : Nat) : Int := h.seeds.getD a 0
+def ScriptHeap.assign (h : ScriptHeap) (a : Nat) (v : Int) : ScriptHeap := { seeds := h.seeds.set a v }
+/-- `script.copy()`: a new object with the same content; returns its identity -/
+def ScriptHeap.copy (h : ScriptHeap) (a : Nat) : ScriptHeap × Nat := ({ seeds := h.seeds ++ [h.get a] }, h.seeds.length)
+
+/-- the script the trajectory stores when the caller assigns seeds `vs` to its own object between `setup` and `get_output`
+(`wrapperSetupHead`: setup copies; `trajectoryInit`: get_output copies the wrapper's copy) -/
+def storedAfterEdits (h : ScriptHeap) (a : Nat) (vs : List Int) : Int :=
+  let (h1, held) := h.copy a
+  let h2 := vs.foldl (fun hh v => hh.assign a v) h1
+  let (h3, stored) := h2.copy held
+  h3.get stored
+
+theorem assign_other (h : ScriptHeap) (a b : Nat) (v : Int) (hab : a ≠ b) : (h.assign a v).get b = h.get b := by
+  simp [ScriptHeap.assign, ScriptHeap.get, List.getD_eq_getElem?_getD, List.getElem?_set_ne hab]
+
+theorem assign_length (h : ScriptHeap) (a : Nat) (v : Int) : (h.assign a v).seeds.length = h.seeds.length := by
+  simp [ScriptHeap.assign]
+
+theorem foldl_assign_other (vs : List Int) (h : ScriptHeap) (a b : Nat) (hab : a ≠ b) :
+    (vs.foldl (fun hh v => hh.assign a v) h).get b = h.get b := by
+  induction vs generalizing h with
+  | nil => rfl
+  | cons v vs ih => simp only [List.foldl_cons]; rw [ih, assign_other h a b v hab]
+
+theorem copy_get (h : ScriptHeap) (a : Nat) : (h.copy a).1.get (h.copy a).2 = h.get a := by
+  simp [ScriptHeap.copy, ScriptHeap.get, List.getD_eq_getElem?_getD]
+
+theorem stored_ignores_later_edits (h : ScriptHeap) (a : Nat) (ha : a < h.seeds.length) (vs : List Int) :
+    storedAfterEdits h a vs = h.get a := by
+  unfold storedAfterEdits
+  simp only []
+  rw [copy_get, foldl_assign_other vs _ a (h.copy a).2 (show a ≠ h.seeds.length from Nat.ne_of_lt ha), copy_get]
+
+example : storedAfterEdits ⟨[20240611]⟩ 0 [20240612, 7] = 20240611 := by decide
+
+/-- without the copy in `setup` (the wrapper holding the caller's object itself) the last edit would be what is stored:
+the hypothesis "setup copies" (`script_text`, `Gen.wrapperSetupHead`) is what `stored_ignores_later_edits` rests on -/
+example : ((([20240612, 7] : List Int).foldl (fun hh v => hh.assign 0 v) (⟨[20240611]⟩ : ScriptHeap)).copy 0).1.get 1 = 7 := by decide
+
 /-! ## non-vacuity -/
 
 def demoAlgo : Algo Nat Nat := { step := fun n => some (n + 1, 1 / 4), obs := id }
